@@ -85,8 +85,8 @@ Theorem c12_returned_destroyed : forall c s t o,
 Proof. exact returned_destroyed. Qed.
 
 (* ------------------------------------------------------------------ non-vacuity *)
-Definition cfg_iter1 := {| how := CIter; max0 := 1; ptmo := TNone |}.
-Definition cfg_new1 := {| how := CNew; max0 := 1; ptmo := TNone |}.
+Definition cfg_iter1 := {| how := CIter; max0 := 1; ptmo := TNone; rt := false |}.
+Definition cfg_new1 := {| how := CNew; max0 := 1; ptmo := TNone; rt := false |}.
 
 (* the history of D7: try_get holds the permit, close() runs completely, try_get continues:
    Closed, no panic; the object was destroyed by close() *)
